@@ -12,14 +12,17 @@ Definition x_safe (c : xcfg) (s : xstate) : bool :=
   | CDone r =>
       match x_act s with
       | None =>       (* the action was never started: only because the parent context had already ended *)
-          negb (is_live (x_parent s)) && res_eqb r (kind_of (x_parent s)) && negb (x_chan s)
+          negb (is_live (x_parent s)) && res_eqb r (kind_of gen_facts (x_parent s)) && negb (x_chan s)
+          && negb (res_eqb r ROther)
       | Some a =>     (* otherwise the action has returned and its result has been received *)
           apc_eqb a ASent && negb (x_chan s)
           (* the result: the action's own, or the kind of the ended timeout context, with a cause *)
           && (res_eqb r (res_of (a_out (x_a c)))
-              || res_eqb r RTimeout && pst_eqb (x_tctx s) PDead && (x_fired s || pst_eqb (x_parent s) PDead)
-              || res_eqb r RCancelled && pst_eqb (x_tctx s) PCanc
-                 && (pst_eqb (x_parent s) PCanc || negb (epc_eqb (x_ext s) EIdle)))
+              || res_eqb r RTimeout && pst_eqb (base (x_tctx s)) PDead && (x_fired s || pst_eqb (base (x_parent s)) PDead)
+              || res_eqb r RCancelled && pst_eqb (base (x_tctx s)) PCanc
+                 && (pst_eqb (base (x_parent s)) PCanc || negb (epc_eqb (x_ext s) EIdle)))
+          (* whatever cause the parent's canceller supplied, the error is of the timeout / cancelled KIND *)
+          && negb (res_eqb r ROther)
           (* the action's context: cancelled on every exit path of ...AndContext; for ...AndCancelStore on every
              path except "the action returned nil by itself" *)
           && (if x_store c then x_cret s || outcome_eqb (a_out (x_a c)) ONil && negb (x_saw s) && negb (res_eqb r RErr)
@@ -72,14 +75,15 @@ Lemma x_waits_l : forall c sched r,
   let s := run (x_step gen_facts c) (x_init c) sched in
   x_pc s = CDone r ->
   (x_act s = Some ASent /\ x_chan s = false) \/
-  (x_act s = None /\ x_parent s <> PLive /\ r = kind_of (x_parent s)).
+  (x_act s = None /\ x_parent s <> PLive /\ r = kind_of gen_facts (x_parent s) /\ r <> ROther).
 Proof.
   intros c sched r s Hpc. pose proof (x_safe_run c sched) as H. fold s in H.
   unfold x_safe in H. rewrite Hpc in H. destruct (x_act s) as [a|].
   - left. bool_hyps. repeat match goal with H : apc_eqb _ _ = true |- _ => apply apc_eqb_ok in H end. subst. auto.
-  - right. bool_hyps. split; [reflexivity|]. split.
+  - right. bool_hyps. split; [reflexivity|]. split; [|split].
     + intros E. rewrite E in *. discriminate.
     + now apply res_eqb_ok.
+    + intros E. subst r. discriminate.
 Qed.
 
 (* the value returned *)
@@ -87,13 +91,14 @@ Lemma x_result_l : forall c sched r,
   let s := run (x_step gen_facts c) (x_init c) sched in
   x_pc s = CDone r -> x_act s <> None ->
   r = res_of (a_out (x_a c)) \/
-  (r = RTimeout /\ x_tctx s = PDead /\ (x_fired s = true \/ x_parent s = PDead)) \/
-  (r = RCancelled /\ x_tctx s = PCanc /\ (x_parent s = PCanc \/ x_ext s <> EIdle)).
+  (r = RTimeout /\ base (x_tctx s) = PDead /\ (x_fired s = true \/ base (x_parent s) = PDead)) \/
+  (r = RCancelled /\ base (x_tctx s) = PCanc /\ (base (x_parent s) = PCanc \/ x_ext s <> EIdle)).
 Proof.
   intros c sched r s Hpc Hst. pose proof (x_safe_run c sched) as H. fold s in H.
   unfold x_safe in H. rewrite Hpc in H. destruct (x_act s) as [a|]; [|congruence].
   apply andb_true_iff in H. destruct H as [H _]. apply andb_true_iff in H. destruct H as [H _].
-  apply andb_true_iff in H. destruct H as [H _]. apply andb_true_iff in H. destruct H as [_ H].
+  apply andb_true_iff in H. destruct H as [H _]. apply andb_true_iff in H. destruct H as [H _].
+  apply andb_true_iff in H. destruct H as [_ H].
   apply orb_true_iff in H. destruct H as [H|H]; [apply orb_true_iff in H; destruct H as [H|H]|].
   - left. now apply res_eqb_ok.
   - right; left. bool_hyps. apply res_eqb_ok in H. apply pst_eqb_ok in H1. repeat split; auto.
@@ -101,6 +106,18 @@ Proof.
   - right; right. bool_hyps. apply res_eqb_ok in H. apply pst_eqb_ok in H1. repeat split; auto.
     apply orb_true_iff in H0. destruct H0 as [P|E]; [left; now apply pst_eqb_ok|].
     right. apply negb_true_iff in E. intros X. rewrite X in E. discriminate.
+Qed.
+
+(* whatever the parent's canceller supplied as a cause, the runner never returns an error outside the kinds *)
+Lemma x_kind_l : forall c sched r,
+  let s := run (x_step gen_facts c) (x_init c) sched in
+  x_pc s = CDone r -> r <> ROther.
+Proof.
+  intros c sched r s Hpc. pose proof (x_safe_run c sched) as H. fold s in H.
+  unfold x_safe in H. rewrite Hpc in H. intros E. subst r. destruct (x_act s).
+  - apply andb_true_iff in H. destruct H as [H _]. apply andb_true_iff in H. destruct H as [H _].
+    apply andb_true_iff in H. destruct H as [H _]. apply andb_true_iff in H. destruct H as [_ H]. discriminate.
+  - apply andb_true_iff in H. destruct H as [_ H]. discriminate.
 Qed.
 
 (* the action's context is cancelled when the runner returns *)
